@@ -474,7 +474,7 @@ func c11BodyError(k string, w bool) error {
 }
 
 // C11TxEntries are the entry points of the in-package unit.
-var C11TxEntries = []string{"transact", "transactctx", "transactctx", "transactctx", "onconn", "newconn", "newconn2", "nodriver", "mysqlbad"}
+var C11TxEntries = []string{"transact", "transactctx", "transactctx", "transactctx", "onconn", "newconn", "newconn2"}
 
 // Connections whose provider (the function that hands out the *sql.DB) fails:
 //   - nodriver: NewConn with a driver name nobody registered (sql.Open fails at every call);
@@ -501,6 +501,10 @@ func c11CtxEntry(e string) bool {
 func VerifC11GenTx(entries []string) func(rt *rapid.T) C11TxCase {
 	return func(rt *rapid.T) C11TxCase {
 		c := C11TxCase{Entry: rapid.SampledFrom(entries).Draw(rt, "entry")}
+		if entries[0] == "transact" && rapid.Bool().Draw(rt, "nodb1") && rapid.Bool().Draw(rt, "nodb2") && rapid.Bool().Draw(rt, "nodb3") && rapid.Bool().Draw(rt, "nodb4") {
+			// in-package unit only: a connection that cannot obtain its *sql.DB
+			c.Entry = rapid.SampledFrom([]string{"nodriver", "mysqlbad"}).Draw(rt, "nodb-entry")
+		}
 		n := rapid.IntRange(0, 4).Draw(rt, "nstmts")
 		if c11CtxEntry(c.Entry) {
 			switch rapid.IntRange(0, 9).Draw(rt, "ctx") {
@@ -2137,6 +2141,12 @@ func VerifC11GenRows(sessions []string) func(rt *rapid.T) C11RowsCase {
 		}
 		// magnitudes of the values
 		for i := range c.Cols {
+			narrow := c.Cols[i].U < len(leaves) && (leaves[c.Cols[i].U].T == "i32" || leaves[c.Cols[i].U].T == "u64")
+			if narrow && rapid.Bool().Draw(rt, "magnitude-narrow") {
+				// a field narrower than the column: values at and beyond the edge of its range
+				c.Cols[i].M = rapid.SampledFrom([]string{"p31", "p31", "min", "max", "zero"}).Draw(rt, "imag-narrow")
+				continue
+			}
 			if rapid.IntRange(0, 5).Draw(rt, "magnitude") != 2 {
 				continue
 			}
@@ -2379,7 +2389,7 @@ func c11RunQuery(c C11RowsCase, db *sql.DB, v any) error {
 		// a transaction the caller began on the handle the connection hands out
 		raw, err := conn.RawDB()
 		if err != nil || raw != db {
-			return fmt.Errorf("c11 harness: RawDB returned (%p, %v), the connection was made from %p", raw, err, db)
+			return fmt.Errorf("c11 harness: RawDB returned (handle is the one the connection was made from: %v, error %v)", raw == db, err)
 		}
 		tx, err := raw.Begin()
 		if err != nil {
@@ -2650,6 +2660,9 @@ func VerifC11InterpRows(c C11RowsCase, q C11Querier) (v kit.Verdict) {
 	// ---------------- primitive destinations
 	if c.Prim != "" {
 		classes["shape:prim"] = true
+		if c.Prim == "i32" || c.Prim == "u64" {
+			classes["leaf:"+c.Prim] = true
+		}
 		col := c.Cols[0]
 		et := c11LeafTypes[c.Prim]
 		var dst reflect.Value
@@ -2808,6 +2821,12 @@ func VerifC11InterpRows(c C11RowsCase, q C11Querier) (v kit.Verdict) {
 		mode = "pos"
 	}
 	classes["mode:"+mode] = true
+	for _, l := range leaves {
+		switch l.T {
+		case "i32", "u64", "tm", "ppi64":
+			classes["leaf:"+l.T] = true
+		}
+	}
 	if c.Names != "" {
 		classes["names:"+c.Names] = true
 	}
@@ -3280,6 +3299,10 @@ type c11Exported struct {
 }
 
 // c11BadDests builds a fresh destination of each kind.
+// Not in the list (observed, outside the statement): a struct with an unexported
+// nil POINTER field (`p *int64`) makes every query form panic in unwrapFields
+// ("reflect.Value.Set using value obtained using unexported field") instead of
+// returning ErrNotReadableValue as the unexported value fields do; see COVERAGE.md.
 var c11BadDests = map[string]func() any{
 	"nil":                     func() any { return nil },
 	"struct-by-value":         func() any { return c11Exported{} },
